@@ -43,12 +43,34 @@ def inv_message_check(it, st, s):
     return [(Lin.const(-1), "Message.data is a slice of known length")]
 
 
+M2T = "stun_types::attribute::integrity::MessageIntegritySha256"
+
+
+def inv_sha256(it, st, s):
+    """type invariant: MessageIntegritySha256.hmac.len() in 16..=32 and a multiple of 4 (constructor and decoder enforce it)"""
+    d = s.get(0)
+    if isinstance(d, Seq) and not d.len.is_const():
+        st.sys.add_ge(d.len - 16)
+        st.sys.add_ge(Lin.const(32) - d.len)
+        q = it.fresh_num(st, 4, 8, "ghostq")
+        st.sys.add_eq(d.len - q.e.scale(4))
+        it.ghosts[next(iter(q.e.t))] = (d.len, 4)
+
+
+def inv_sha256_check(it, st, s):
+    d = s.get(0)
+    if isinstance(d, Seq):
+        return [(d.len - 16, "MessageIntegritySha256.hmac.len() >= 16"), (Lin.const(32) - d.len, "MessageIntegritySha256.hmac.len() <= 32"),
+                ("mod", d.len, 4, "MessageIntegritySha256.hmac.len() is a multiple of 4")]
+    return [(Lin.const(-1), "MessageIntegritySha256.hmac is a sequence of known length")]
+
+
 # upper bound used by the attribute-count argument (L6): 2 * ((len - 20 + 3) / 4) must fit u16, i.e. len <= 131085; the
 # parser establishes len = declared + 20 <= 65555 (C02 length agreement decides the exact equality)
 MSG_MAX = 131072
 
-INVARIANTS = {MSG: inv_message}
-INVARIANT_CHECKS = {MSG: inv_message_check}
+INVARIANTS = {MSG: inv_message, M2T: inv_sha256}
+INVARIANT_CHECKS = {MSG: inv_message_check, M2T: inv_sha256_check}
 
 
 def entries(prog):
@@ -488,7 +510,13 @@ class Lemmas:
         ok, bad = sub_check(self.prog, "c10")
         if not ok:
             return False, "C10 exposure transducer fails: %s" % bad
-        # the scan compares the same type constants the lookups used, per algorithm
+        ok, d = self._scan_types()
+        if not ok:
+            return False, d
+        return True, "lookups and scan use MI/M2 type constants; parser admits each at most once; iterator exposure (C10) and tiling (L2) hold"
+
+    def _scan_types(self):
+        """the scan compares the same type constants the lookups used"""
         from dtable import instrumented_body
         b, ups = instrumented_body(self.prog, VALIDATE)
         og = Origins(self.prog, b)
@@ -505,7 +533,11 @@ class Lemmas:
                         compared.add(c)
         if looked != {0x0008, 0x001C} or not looked <= compared:
             return False, "lookups use types %s but the scan compares %s" % (sorted(looked), sorted(compared))
-        return True, "lookups and scan use MI/M2 type constants; parser admits each at most once; iterator exposure (C10) and tiling (L2) hold"
+        # each comparison is conjoined with the matching algorithm test: `algo == X && type == T(X)`
+        eqs = [(bi, t) for bi, t in b.calls() if og.callee_name(t).endswith("IntegrityAlgorithm as std::cmp::PartialEq>::eq")]
+        if len(eqs) < 2:
+            return False, "the scan no longer tests the selected algorithm before comparing types (%d test(s))" % len(eqs)
+        return True, "ok"
 
     # ---- L5: adding distinct non-sealing attributes to a fresh builder succeeds
     def prem_L5(self):
